@@ -26,7 +26,7 @@ Coordinate values/attributes are produced by xarray (not decided); for the name 
 from __future__ import annotations
 
 from ..absint import TOP, Evaluator, Obj, Sym, Unmodelled
-from ..harness import coord_tracking_models, run_apply
+from ..harness import BecomesDataset, coord_tracking_models, run_apply
 from ..xmodel import dimsym, make_da, make_grid
 from .c02 import run_pad
 from .c09 import _run_cumsum
@@ -300,6 +300,9 @@ def _strip(ctx, P):
 
             try:
                 outs = ev.run_paths(padfi, make)
+            except BecomesDataset as e:
+                ctx.report("R19.3", padfi, inst, f"the coordinates are not dropped but turned into data variables: {e} - the padding receives a Dataset holding them instead of the stripped array")
+                continue
             except Unmodelled as e:
                 ctx.unknown("R19.3", inst, str(e))
                 continue
